@@ -32,14 +32,18 @@ class W:
     def mark(self, multi: bool):
         r = self.rng
         self.n += 1
-        name = f"pm{self.n}"
         q = r.choice(["'", '"'])
+        other = '"' if q == "'" else "'"
+        # the name as a value, and as it is spelled inside the chosen quotes (escapes as the language defines them)
+        name, spelled = r.choice([(f"pm{self.n}", f"pm{self.n}")] * 4 + [
+            (f"p{q}m{self.n}", f"p\\{q}m{self.n}"), (f"p{other}m{self.n}", f"p{other}m{self.n}"), (f"p\nm{self.n}", f"p\\nm{self.n}"),
+            (f"p m{self.n}", f"p m{self.n}"), (f"{q}{self.n}", f"\\{q}{self.n}"), (f"pé{self.n}>", f"pé{self.n}>")])
         xt = r.choice(["0", "1", "12", "40", "3.5", "3.50", "3.0", ".5", "0.5", "007" if False else "7", "0x10", "-2", "-2.5", "63"])
         yt = r.choice(["0", "5", "9.5", "20.0", ".0", "0b11", "0o17", "31", "-1"])
         sp = (lambda: self.sep(True)) if multi else (lambda: self.rng.choice(["", " "]))
         ln, col = self.pos()
         self.w("Position")
-        self.w(sp()); self.w("<"); self.w(sp()); self.w(q + name + q); self.w(sp()); self.w(","); self.w(sp()); self.w(xt); self.w(sp()); self.w(",")
+        self.w(sp()); self.w("<"); self.w(sp()); self.w(q + spelled + q); self.w(sp()); self.w(","); self.w(sp()); self.w(xt); self.w(sp()); self.w(",")
         self.w(sp()); self.w(yt); self.w(sp())
         eln, ecol = self.pos()
         self.w(">")
@@ -66,11 +70,19 @@ def gen_source(rng: random.Random) -> dict:
     places = [rng.choice(["op", "op", "op2", "macro-body", "macro-arg", "switch-hdr", "if-cond", "nested", "inline-ctx", "with"]) for _ in range(nm)]
     multi = rng.random() < 0.4
     use_macro = any(p in ("macro-body", "macro-arg") for p in places)
-    if use_macro:
+    layout = rng.choice(["macro-first", "macro-first", "macro-last", "macro-between"]) if use_macro else "macro-first"
+    second_routine = rng.random() < 0.35
+
+    def macro_block():
         w.w("macro mm($a) {"); w.w(rng.choice(["\n    ", " "])); w.w("inmac($a")
         for p in [p for p in places if p == "macro-body"]:
             w.w(", "); w.mark(multi)
         w.w(");\n}\n")
+
+    def second_block():
+        w.w("def 1 for actor A {\n    r1("); w.args(1, multi); w.w(");\n    hold;\n}\n")
+    if use_macro and layout == "macro-first":
+        macro_block()
     w.w("def 0 {\n")
     same_line = rng.random() < 0.3
     nl = (lambda: w.w(" ")) if same_line else (lambda: w.w("\n    "))
@@ -98,6 +110,12 @@ def gen_source(rng: random.Random) -> dict:
     if use_macro and "macro-arg" not in places:
         nl(); w.w("~mm(0);")
     w.w("\n    return;\n}\n")
+    if use_macro and layout == "macro-between":
+        macro_block()
+    if second_routine:
+        second_block()
+    if use_macro and layout == "macro-last":
+        macro_block()
     return {"src": w.s, "expected": w.marks}
 
 
@@ -153,7 +171,7 @@ def run_case(case: dict) -> dict:
         occ = found.get(m.name, [])
         if not occ:
             continue
-        new = SsbOpParamPositionMarker(m.name + "_ed", 2 if m.x_offset == 0 else 0, m.y_offset, m.x_relative + 1, m.y_relative)
+        new = SsbOpParamPositionMarker(f"edited{k}", 2 if m.x_offset == 0 else 0, m.y_offset, m.x_relative + 1, m.y_relative)
         a = offs[m.line_number] + m.column_number
         b = offs[m.end_line_number] + m.end_column_number + 1
         edited = src[:a] + str(new) + src[b:]
@@ -171,17 +189,19 @@ def run_case(case: dict) -> dict:
 
 def validate(rep, recs, tag):
     out = []
-    path = os.path.join(common.scratch(), f"c18-{tag}.json")
-    with open(path, "w") as fh:
-        json.dump([{"status": r["status"], "listing": r["listing"], "expected": [{k: v for k, v in e.items() if k != "nm"} for e in r["expected"]],
-                    "edits": [{k: v for k, v in e.items() if k != "k"} for e in r["edits"]]} for r in recs], fh)
-    res = common.run_tlc("PosMarks", "PosMarks.cfg", {"CASES_FILE": path})
-    os.unlink(path)
-    rep.add_tlc(res)
-    if res["inv_errors"] and not res["viols"]:
-        raise common.MachineryError("invariant violation without VIOL line:\n" + res["out"][-3000:])
-    for v in res["viols"]:
-        out.append((int(v[0]) - 1, common.tla_unquote(v[1]), int(v[2])))
+    B = 3000      # one TLC run per 3000 cases: a single document of tens of thousands of cases makes TLC spend its time collecting garbage
+    for k0 in range(0, len(recs), B):
+        path = os.path.join(common.scratch(), f"c18-{tag}-{k0}.json")
+        with open(path, "w") as fh:
+            json.dump([{"status": r["status"], "listing": r["listing"], "expected": [{k: v for k, v in e.items() if k != "nm"} for e in r["expected"]],
+                        "edits": [{k: v for k, v in e.items() if k != "k"} for e in r["edits"]]} for r in recs[k0:k0 + B]], fh)
+        res = common.run_tlc("PosMarks", "PosMarks.cfg", {"CASES_FILE": path})
+        os.unlink(path)
+        rep.add_tlc(res)
+        if res["inv_errors"] and not res["viols"]:
+            raise common.MachineryError("invariant violation without VIOL line:\n" + res["out"][-3000:])
+        for v in res["viols"]:
+            out.append((k0 + int(v[0]) - 1, common.tla_unquote(v[1]), int(v[2])))
     return out
 
 
